@@ -156,7 +156,9 @@ func c02Contract(p *profile.Profile) string {
 }
 
 // c02Observe runs the real code on b and evaluates the direct oracle.
-func c02Observe(b []byte, reports bool) *c02Outcome {
+func c02Observe(b []byte, reports bool) *c02Outcome { return c02observe(b, reports, 1, false) }
+
+func c02observe(b []byte, reports bool, mult int, retried bool) *c02Outcome {
 	o := &c02Outcome{}
 	var p *profile.Profile
 	var err error
@@ -189,7 +191,7 @@ func c02Observe(b []byte, reports bool) *c02Outcome {
 			o.sig, o.what = sig, what
 		}
 	}
-	pn, st, to = c02Timed(c02PostBudget, func() {
+	pn, st, to = c02Timed(time.Duration(mult)*c02PostBudget, func() {
 		if e := p.CheckValid(); e != nil {
 			fail("C02/accepted/checkvalid", "accepted profile fails CheckValid: "+e.Error())
 			return
@@ -257,9 +259,14 @@ func c02Observe(b []byte, reports bool) *c02Outcome {
 			}
 		}
 	})
+	if to && !retried {
+		// rule out a stall of the test machine: the whole observation once more with a larger budget
+		time.Sleep(500 * time.Millisecond)
+		return c02observe(b, reports, 4, true)
+	}
 	switch {
 	case to:
-		fail("C02/accepted/timeout", fmt.Sprintf("Write/Copy/Compact/reports of an accepted profile did not finish within %v", c02PostBudget))
+		fail("C02/accepted/timeout", fmt.Sprintf("Write/Copy/Compact/reports of an accepted profile did not finish within %v", time.Duration(mult)*c02PostBudget))
 	case pn != "":
 		fail("C02/accepted/panic/"+c02PanicWhere(st), "post-parse processing panics: "+pn)
 	}
@@ -525,11 +532,19 @@ func c02Check(c *Ctx, raw []byte, stream string, cli bool) *c02Outcome {
 
 // c02CLI runs the real pprof binary on an accepted input.
 func c02CLI(c *Ctx, raw []byte, stream string, cmds []string) {
-	for _, r := range c02RunCLI(c, raw, cmds) {
+	for _, r := range c02RunCLI(c, raw, cmds, 20*time.Second) {
 		c.Res.Hit("cli:runs")
+		if r.timeout {
+			// rule out a stall of the test machine: once more, alone, with a generous limit
+			c.Res.Hit("cli:timeout-retried")
+			time.Sleep(time.Second)
+			if rr := c02RunCLI(c, raw, []string{r.cmd}, 120*time.Second); len(rr) == 1 {
+				r = rr[0]
+			}
+		}
 		switch {
 		case r.timeout:
-			c.Violation("C02/cli/timeout/"+r.cmd, "pprof "+r.cmd+" on an accepted profile did not finish within 20s", c02Case{Bytes: hex.EncodeToString(raw), Stream: stream, CLI: true})
+			c.Violation("C02/cli/timeout/"+r.cmd, "pprof "+r.cmd+" on an accepted profile did not finish within 120s (after a first attempt limited to 20s)", c02Case{Bytes: hex.EncodeToString(raw), Stream: stream, CLI: true})
 		case r.crashed:
 			c.Res.Hit("cli:crash")
 			c.Violation("C02/cli/panic/"+r.where, "pprof "+r.cmd+" crashes on a profile the parser accepts: "+r.stderr, c02Case{Bytes: hex.EncodeToString(raw), Stream: stream, CLI: true})
